@@ -8,6 +8,7 @@ import Driver.ValCodec
 import Driver.TPCodec
 import Driver.C11Codec
 import Driver.PGCodec
+import Driver.DocCodec
 import TableauVerif.Model.Patch
 import TableauVerif.Spec.C13
 import TableauVerif.Model.FieldProp
@@ -330,6 +331,7 @@ def dispatch (line : String) : String :=
       else if fn.startsWith "c20." || fn.startsWith "o.c20." then c20 fn args
       else if fn.startsWith "c05." || fn.startsWith "o.c05." then c05 fn args
       else if fn.startsWith "c11." || fn.startsWith "o.c11." then c11 fn args
+      else if fn.startsWith "doc." then doc fn args
       else if fn.startsWith "c17." || fn.startsWith "o.c17." || fn.startsWith "pg." || fn.startsWith "c09." || fn.startsWith "o.c09." || fn.startsWith "c19." || fn.startsWith "o.c19." || fn.startsWith "c02." || fn.startsWith "o.c02." || fn.startsWith "c15." || fn.startsWith "o.c15." || fn.startsWith "c08." || fn.startsWith "o.c08." then pg fn args
       else if fn.startsWith "c18." || fn.startsWith "o.c18." then c18 fn args
       else if fn.startsWith "c04." || fn.startsWith "o.c04." || fn.startsWith "c16." || fn.startsWith "o.c16." || fn.startsWith "c06." || fn.startsWith "o.c06." then c04 fn args
